@@ -8,6 +8,9 @@ impl Status {
     #[verifier::external_body]
     pub fn ok() -> (r: Status) ensures r.code == StatusCode::OK { unimplemented!() }
     pub fn code(&self) -> (r: StatusCode) ensures r == self.code { self.code }
+    // protocols/status.rs Status::is_ok (its real body is under contract in unit peer_state)
+    #[verifier::external_body]
+    pub fn is_ok(&self) -> (r: bool) ensures r == (self.code == StatusCode::OK || self.code == StatusCode::RequireRecheck) { unimplemented!() }
 }
 impl vstd::std_specs::convert::FromSpecImpl<StatusCode> for Status {
     open spec fn obeys_from_spec() -> bool { true }
